@@ -153,12 +153,17 @@ INTERMEDIATE = {"Chunk", "GroupByChunk", "Combine", "TreeReduce", "TakeLast", "G
                 "_SetPartitionsPreSetIndex", "CreateOverlappingPartitions", "AssignPartitioningIndex"}
 
 
-def _is_intermediate(e):
+def _is_intermediate(e, _memo=None):
+    """an intermediate itself, or a partition-wise (Blockwise) node computed directly from one: it inherits the divisions its
+    input reports (e.g. ToFrame over Unique(Chunk)), so only its partition count is judged"""
+    from dask_expr._expr import Blockwise
     nm = type(e).__name__
     if nm in INTERMEDIATE:
         return True
     if nm == "Fused":
-        return type(e.exprs[0]).__name__ in INTERMEDIATE
+        return any(type(x).__name__ in INTERMEDIATE for x in e.exprs) or any(_is_intermediate(d) for d in e.dependencies())
+    if isinstance(e, Blockwise):
+        return any(_is_intermediate(d) for d in e.dependencies())
     return False
 
 
@@ -194,7 +199,7 @@ def walk_plan(low, stage, base):
             pf = [part_facts(p) for p in parts]
             # per-partition schema only for partitions that are pandas objects of a collection node
             ps = [] if _is_intermediate(e) else [schema_of(p) for p in parts if isinstance(p, (pd.DataFrame, pd.Series, pd.Index))]
-            line = dict(base, kind="node", stage=stage, cls=type(e).__name__, np=int(e.npartitions), known=bool(known), div=div,
+            line = dict(base, kind="node", stage=stage, cls=type(e).__name__, np=int(e.npartitions), known=bool(known), div=div, div_has_null=bool(NULL in div),
                         parts=pf, decl=decl, pschemas=ps, has_result=False, rschema=decl, asserted=False, is_root=(e is low or e._name == low._name))
             lines.append(line)
     try:
@@ -487,7 +492,7 @@ def run_for(pid, tier="quick", seed=0, replay_path=None):
             chk.note_nontrivial(common.case_hash([c.get("q", c.get("seed")), ln["kind"], ln.get("stage")]))
         if ln["tid"] in rejects:
             pub = {"program": {k: v for k, v in c.items() if k != "cid"}, "ops": rel.ops_of(c["q"]) if "q" in c and not c.get("special") else [], "stage": ln.get("stage"),
-                   "cls": ln.get("cls", ""), "kind": ln["kind"], "q": c.get("q", {"op": "none"})}
+                   "cls": ln.get("cls", ""), "kind": ln["kind"], "q": c.get("q", {"op": "none"}), "div_has_null": bool(ln.get("div_has_null", False))}
             det = {k: ln[k] for k in ("np", "known", "div", "parts", "decl", "pschemas", "rschema", "schemas", "stages", "pairs", "desc") if k in ln}
             if ln["kind"] == "graph":
                 det = {"nkeys": ln["nkeys"]}
